@@ -26,6 +26,9 @@ HEADERS = ['**text', '**dynam', '**dyn', '**harm', '**mxhm', '**fing', '**unknow
            '**har', '**tex', '**dyna', '**fin', '**mx', '**roo', '**ker', '**men', '**k', '**Text', '**HARM', '**textual']
 
 
+QUOTED = ['"Ave', '"a"', '""', '"', '"Wer', 'da?"', 'x"y', '"a b', 'a,b', '"a,b"']
+
+
 def explore(ctx, depth):
     import kernpy as kp
     from kernpy.core.importer_factory import createImporter
@@ -104,6 +107,8 @@ def explore(ctx, depth):
         cols = rng.sample(kern_hdrs, rng.randint(2, 5))
         rows = [rng.choice(pool2) for _ in range(rng.randint(3, 9))]
         rows += [rng.choice(rows) for _ in range(3)]          # repeated texts
+        # text that begins with, ends with or consists of a double quote (quoted direct speech in lyrics): taken literally under every spine type
+        rows.insert(rng.randrange(len(rows) + 1), rng.choice(QUOTED))
         if rng.random() < 0.6:
             # an invisible barline, later a visible one of the same shape (and the other way round): tokens that compare equal but differ in `hidden`
             hb, vb = rng.choice([('=1-', '='), ('=-', '='), ('=3-', '=3'), ('==-', '=='), ('=2-', '=')])
